@@ -65,7 +65,7 @@ def run(ctx):
         ctx.finish("proof", cov, assumptions)
 
     # ------------------------------------------------------------------ Go grid
-    nrand = 400 if ctx.thorough else 60
+    nrand = 250 if ctx.thorough else 60
     grids = {}
     nets_in = []
     for n in ub.NETS:
@@ -151,7 +151,9 @@ def run(ctx):
         k = K[net]
         fixed = variant[net] == "fixed"
         files = {"Unbind_K.tla": ub.k_module(net, k, fixed)}
-        obs = ub.OBLIGATIONS_COMMON + ["ObSaturation"] + (ub.OBLIGATIONS_FIXED if fixed else ub.OBLIGATIONS_CODED)
+        # ObGovLossIsGap implies ObGovAdditiveOffDeadline; the weaker one is only re-proved in the thorough tier
+        obs = ub.OBLIGATIONS_COMMON + ["ObSaturation"] + (ub.OBLIGATIONS_FIXED if fixed else
+                                                          (ub.OBLIGATIONS_CODED if ctx.thorough else ["ObGovLossIsGap"]))
         jobs.append((net, files, obs))
         must[net] = obs
     # the code as it is: the unrestricted governance obligation is expected to be refuted; the counterexample is
@@ -237,6 +239,9 @@ def run(ctx):
         cov["checker_cmd"] = cov["checker_cmd"] or r["cmd"]
         for ob in must[net]:
             obligations += 1
+            if r["status"] == "refuted-batch":
+                oblist.append({"net": net, "obligation": ob, "status": "in refuted batch (not attributed: the Go grid already reported a violation)"})
+                continue
             rr = r if r["status"] != "split" else res[net + ":" + ob]
             oblist.append({"net": net, "obligation": ob, "status": rr["status"]})
             if rr["status"] == "ok":
